@@ -59,6 +59,13 @@ def build_harness():
         return rc == 0, out
 
 
+def build_server():
+    """the worterbuch server binary of /repo's current working tree (C11/C12 start it the way the orchestrator does)"""
+    with Lock("cargo-server"):
+        rc, out = sh(["cargo", "build", "--offline", "-p", "worterbuch", "--bin", "worterbuch", "--target-dir", os.path.join(HARNESS, "target-bin")], cwd=REPO, timeout=3400)
+        return rc == 0, out
+
+
 def coq_files():
     files = []
     for line in open(os.path.join(COQ, "_CoqProject")):
